@@ -299,6 +299,36 @@ class Ctx:
             rec["replay_error"] = traceback.format_exc()[-1500:]
             return verdict, model
         rec["replay"] = _jsonable(detail)
+        tries = 0
+        wts = [z(t.re) if isinstance(t, core.Sym) else t for t in (witness_terms or {}).values()]
+        wts = [t for t in wts if isinstance(t, z3.ExprRef)]
+        used = [model]
+        while not ok and tries < 3 and wts:
+            # the first model may sit on a degenerate parameter choice (e.g. two spacings equal) where the
+            # flagged difference does not show; ask for a more generic witness of the same query and replay that
+            tries += 1
+            extra = []
+            for t in wts:
+                for mu in used:
+                    extra.append(t != mu.eval(t, model_completion=True))
+            if len(wts) > 1:
+                extra.append(z3.Distinct(*wts))
+            v2, m2, _, _ = self.check_sat(asserts + extra, timeout_ms)
+            if v2 != "sat":
+                break
+            used.append(m2)
+            try:
+                from . import npx
+                with npx.real_code():
+                    ok, detail = replay(_ModelReader(m2))
+            except Exception as e:
+                self.harness_errors.append("%s: replay raised %s: %s" % (full, type(e).__name__, e))
+                return verdict, model
+            if ok:
+                wit = {k: _jsonable(_mv(m2, t)) for k, t in (witness_terms or {}).items()}
+                rec["witness"] = wit
+                rec["replay"] = _jsonable(detail)
+                model = m2
         if ok:
             self.violations.append(dict(obligation=full, witness=wit, replay=_jsonable(detail)))
         else:
@@ -398,8 +428,92 @@ def _jsonable(x):
     return repr(x)
 
 
+# ------------------------------------------------------------------ pristine replays
+class Pristine:
+    """A server process forked from the worker *before* any code under test has run.  Each request is
+    executed in a further fork of that pristine state, so a replay never sees module-level state (caches,
+    RNG state) left behind by the symbolic run or by an earlier replay."""
+
+    def __init__(self):
+        import multiprocessing as mp
+        self.conn, child = mp.Pipe()
+        self.pid = os.fork()
+        if self.pid == 0:
+            self.conn.close()
+            try:
+                self._serve(child)
+            finally:
+                os._exit(0)
+        child.close()
+
+    @staticmethod
+    def _serve(conn):
+        import importlib
+        import multiprocessing as mp
+        while True:
+            try:
+                req = conn.recv()
+            except EOFError:
+                return
+            if req is None:
+                return
+            modname, fname, args = req
+            r, w = mp.Pipe(duplex=False)
+            p = os.fork()
+            if p == 0:
+                try:
+                    fn = getattr(importlib.import_module(modname), fname)
+                    w.send(("ok", _jsonable_pair(fn(*args))))
+                except BaseException as e:   # noqa
+                    w.send(("error", "%s: %s" % (type(e).__name__, e)))
+                finally:
+                    os._exit(0)
+            w.close()
+            try:
+                res = r.recv()
+            except EOFError:
+                res = ("error", "replay process died")
+            os.waitpid(p, 0)
+            conn.send(res)
+
+    def call(self, fn, *args):
+        self.conn.send((fn.__module__, fn.__name__, args))
+        status, payload = self.conn.recv()
+        if status != "ok":
+            raise RuntimeError("pristine replay failed: %s" % payload)
+        return payload[0], payload[1]
+
+    def close(self):
+        try:
+            self.conn.send(None)
+            self.conn.close()
+            os.waitpid(self.pid, 0)
+        except Exception:
+            pass
+
+
+def _jsonable_pair(res):
+    ok, detail = res
+    return bool(ok), _jsonable(detail)
+
+
+PRISTINE = None
+
+
+def pristine_call(fn, *args):
+    """run fn(*args) -> (bool, detail) on the real code in a process forked from the pristine worker state"""
+    if PRISTINE is None:
+        return fn(*args)
+    return PRISTINE.call(fn, *args)
+
+
 # ------------------------------------------------------------------ case scheduler
 def _worker(fn, pid, name, tier, kwargs, conn):
+    global PRISTINE
+    try:
+        PRISTINE = Pristine()
+    except Exception:
+        PRISTINE = None
     try:
         St.reset(kwargs.pop("_mode", "REAL"))
         ctx = Ctx(pid, name, tier)
@@ -408,6 +522,8 @@ def _worker(fn, pid, name, tier, kwargs, conn):
     except BaseException as e:
         conn.send(("error", "%s: %s\n%s" % (type(e).__name__, e, traceback.format_exc()[-3000:])))
     finally:
+        if PRISTINE is not None:
+            PRISTINE.close()
         conn.close()
 
 
